@@ -145,6 +145,7 @@ class Metadata:
         group : h5py Group
         """
         # Make a new group
+        assert('/' not in self.name), f"Metadata names can't contain '/' - HDF5 would read '{self.name}' as a path"
         grp = group.create_group(self.name)
         grp.attrs.create("emd_group_type","metadata")
         grp.attrs.create("python_class",self.__class__.__name__)
@@ -156,6 +157,7 @@ class Metadata:
         """
         For some (key, value, group), saves the piece of metadata to group.
         """
+        assert(isinstance(k,str) and '/' not in k), f"Metadata keys must be strings without '/' - HDF5 would read '{k}' as a path"
         # dict
         if isinstance(v,dict):
             _grp = grp.create_group(k)
